@@ -53,6 +53,7 @@ def replay_one(rec, pattern, variant):
     independent = rec["mode"] == "independent"
     seen = 0
     out = []
+    earlier = []          # code lines (tokens) of the sections already presented and executed
     for step, h in enumerate(rec["hist"], 1):
         a, exp = h["a"], h["s"]
         raised = None
@@ -103,6 +104,21 @@ def replay_one(rec, pattern, variant):
                             stack = [fr for fr in (f.fields.get("traceback_stack") or []) if fr.filename == R.submission.main_file]
                             if stack:
                                 diags.append(("traceback", stack[-1].lineno, ident))
+                # ... and calls that fail inside a function an EARLIER section defined (the student module keeps it):
+                # its lines are lines of the original file too
+                for tok in (earlier if independent else []):
+                    n2 = len(R.feedback)
+                    SB.call("f" + tok, report=R)
+                    for f in R.feedback[n2:]:
+                        if f.category == "runtime":
+                            stack = [fr for fr in (f.fields.get("traceback_stack") or []) if fr.filename == R.submission.main_file]
+                            got = {"runtime": f.location.line if f.location else None, "traceback": stack[-1].lineno if stack else None}
+                            for tool, line in got.items():
+                                if line != int(tok):
+                                    bad.append("line:%s-earlier-section" % tool)
+                                    proj.setdefault("wrong_lines", []).append({"tool": tool + "-earlier-section", "tok": tok, "reported": line, "expected": int(tok)})
+                if SB.get_exception(report=R) is not None or True:
+                    earlier.extend(t for t in toks if t not in earlier)
             if ok and variant == "A":
                 res = tifa_analysis(report=R)
                 for label in ("initialization_problem", "possible_initialization_problem"):
